@@ -15,7 +15,8 @@ LEVEL = 'exploration'
 RULE = ('cases = seeded random tables (all tokenizers, missing/empty values, str/object dtype) and '
         'the bundled person data x measure x threshold x operator x first-stage filter (Size, Prefix, '
         'Position, Overlap>=1) x independent n_jobs for the two stages; edit distance with the q-gram '
-        'filters then Levenshtein. Non-trivial = the join returned at least one pair that is neither '
+        'filters then Levenshtein; W5 rare-shared-token tables at thresholds next to attained scores with '
+        'and without the score column; LARGE planted tables of 1100 to 4100 rows. Non-trivial = the join returned at least one pair that is neither '
         'both-empty nor missing; distinct = case seed.')
 ASSUMPTIONS = ['py_stringmatching similarity functions/tokenizers are trusted',
                'SuffixFilter is (by the property) not a first stage']
